@@ -160,6 +160,11 @@ func c04(args []string) {
 		}
 		s.Procs = append(s.Procs, &spec.Proc{Name: "sweep", Kind: spec.KCmd, Cmd: spec.BuildCmd("sweep", nil, []spec.PortDecl{{Name: "out"}}, []string{"u", "v", "w"}, nil, nil), Outs: []*spec.Out{{Port: "out", Pattern: "sweep_{p:u}_{p:v}_{p:w}.out"}}},
 			&spec.Proc{Name: "tuple", Kind: spec.KCmd, Cmd: spec.BuildCmd("tuple", []spec.PortDecl{{Name: "a"}, {Name: "b"}, {Name: "c"}}, []spec.PortDecl{{Name: "out"}}, nil, nil, nil)})
+		// fan-in of two parameter sources (and a literal feeder) into one parameter port
+		s.Procs = append(s.Procs, &spec.Proc{Name: "pfa", Kind: spec.KParamSource, Values: []string{"fa1", "fa2", "fa3"}}, &spec.Proc{Name: "pfb", Kind: spec.KParamSource, Values: []string{"fb1", "fb2"}},
+			&spec.Proc{Name: "pfan", Kind: spec.KCmd, Cmd: spec.BuildCmd("pfan", nil, []spec.PortDecl{{Name: "out"}}, []string{"k"}, nil, nil), Outs: []*spec.Out{{Port: "out", Pattern: "pfan_{p:k}.out"}},
+				Feeds: []*spec.Feed{{Port: "k", How: "str", Values: []string{"lit1", "lit2"}}}})
+		s.Conns = append(s.Conns, &spec.Conn{From: "pfa.out", To: "pfan.k", Param: true}, &spec.Conn{From: "pfb.out", To: "pfan.k", Param: true})
 		exp := evalRef(s, nil)
 		if exp.Err != "" {
 			c.Broken("reference cannot evaluate the sweep graph: " + exp.Err)
